@@ -317,6 +317,15 @@ example : applyWithCondition good [0x81, 0xa1, 0x74, 0x91, 0x91, 0x01] [⟨.remo
       [⟨.append, [0x74, 0x5b, 0x5d], [0xdc, 0x00, 0x01, 0x01]⟩, ⟨.removeVal, [0x74], [0x91, 0x01]⟩] none
       = .ok [0x81, 0xa1, 0x74, 0x90] := by decide
 
+/-- REMOVE_VAL takes the FIRST match only: `{"t":[1,2,1]}`, REMOVE_VAL t ← 1 gives `[2,1]` in the Spec and
+    in the model.  (A loop that drops every match — `[2]` — is the separate finding
+    C13-removeval-all-matches; the extractor reads the first-match shape from the syntax tree and
+    answers `unknown` for anything else.) -/
+example : Spec.refOps (.map [([0x74], .arr [.leaf [1], .leaf [2], .leaf [1]])]) [⟨.removeVal, [0x74], [1]⟩]
+      = .ok (.map [([0x74], .arr [.leaf [2], .leaf [1]])]) ∧
+    applyWithCondition good [0x81, 0xa1, 0x74, 0x93, 1, 2, 1] [⟨.removeVal, [0x74], [1]⟩] none
+      = .ok [0x81, 0xa1, 0x74, 0x92, 2, 1] := ⟨by rfl, by decide⟩
+
 /-- the Spec is executable: `{"t":[1]}`, SET x ← "y", APPEND t[] ← 2, INC t[-1] by 5 (int8 delta on a
     fixint: class mismatch is an error; uint delta works and widens per the rule) -/
 example : Spec.refOps (.map [([0x74], .arr [.leaf [1]])])
